@@ -88,28 +88,12 @@ def run_shard(desc, seed, tier, col):
 
 # ---------------------------------------------------------------- known findings
 
-def _gone(failure, **overrides):
-    """The failing (sub, kind) disappears when the variant is rebuilt with one feature neutralised."""
-    case = fz.case_of(failure)
-    for f in run_case(case, **overrides):
-        if f['sub'] == failure['sub'] and f['kind'] == failure['kind']:
-            return False
-    return True
-
-
-def _f_any_indef(failure):
-    case = fz.case_of(failure)
-    return fz.tagged_any_present(case['T'], case['v']) and _gone(failure, definite_any=True, flat_bits=True)
-
-
-def _f_nested_bits(failure):
-    case = fz.case_of(failure)
-    # the type, not the value: BER may write out a DEFAULT component the value leaves to its default
-    if 'BITSTRING' not in ir.kinds_in(case['T']):
-        return False
-    return _gone(failure, flat_bits=True, definite_any=True)
 
 
 
 
-FINDINGS = {'F08-nested-bitstring-segments': _f_nested_bits}
+
+
+
+
+FINDINGS = {}
